@@ -204,11 +204,14 @@ class Repo:
             self._classes = t
         return self._classes
 
+    pseudo = set()
+    extra_bases = {}  # class qn -> [pseudo base names]: duck-typed unions declared by the sidecar schema
+
     def bases(self, cqn):
         c = self.classes().get(cqn)
         if c is None:
             return EXTERNAL_BASES.get(cqn, [])
-        out = []
+        out = list(self.extra_bases.get(cqn, []))
         for b in c.bases_expr:
             r = self.resolve_name(c.mod, b)
             if r is not None:
